@@ -391,6 +391,8 @@ def compare(ex, st, op, a, b, node):
 
 
 def contains(ex, st, item, coll, node):
+    if is_sink(item):
+        return fresh('bool', 'sink_member').t
     if isinstance(coll, (PyList, list, tuple)):
         items = coll.items if isinstance(coll, PyList) else list(coll)
         if not items:
@@ -407,6 +409,8 @@ def contains(ex, st, item, coll, node):
         if not ors:
             return False
         return z3.Or(*ors)
+    if is_sink(coll):
+        return fresh('bool', 'in_sink').t
     if isinstance(coll, SList):
         if not isinstance(item, Sym) or item.k != coll.k:
             h = ex.reg.contains_hook
@@ -423,8 +427,14 @@ def contains(ex, st, item, coll, node):
 # ---------------------------------------------------------------------------
 # attribute access
 
+def is_sink(d):
+    return isinstance(d, Opaque) and d.what.startswith('sink')
+
+
 def getattr_value(ex, st, o, name, node):
     o = resolve(ex, st, o)
+    if is_sink(o):
+        return Opaque(o.what)
     if isinstance(o, Lib):
         full = o.name + '.' + name
         if full == 'np.inf':
@@ -486,6 +496,9 @@ def subscript(ex, st, node):
     base = resolve(ex, st, ex.eval(node.value, st))
     d = ex.deref(st, base)
     sl = node.slice
+    if is_sink(d):
+        ex.eval(sl, st) if not isinstance(sl, ast.Slice) else None
+        return Opaque(d.what)
     h = ex.reg.subscript_hook
     if h is not None:
         r = h(ex, st, base, d, sl, node)
@@ -623,6 +636,11 @@ def assign_subscript(ex, st, tgt, v):
     need = ex.need(st)
     base = resolve(ex, st, ex.eval(tgt.value, st))
     d = ex.deref(st, base)
+    if is_sink(d):
+        if not isinstance(tgt.slice, ast.Slice):
+            ex.eval(tgt.slice, st)
+        st.ghost['sink_writes'] = st.ghost.get('sink_writes', 0) + 1
+        return
     v = resolve(ex, st, v)
     dv = ex.deref(st, v)
     h = ex.reg.setitem_hook
@@ -834,6 +852,8 @@ def apply(ex, st, f, args, kwargs, node):
         return ex.call_closure(st, f, args)
     if isinstance(f, PyCallable):
         return f.fn(ex, st, args, kwargs, node)
+    if is_sink(f):
+        return Opaque(f.what)
     if isinstance(f, Opaque):
         h = ex.reg.opaque_call
         if h is not None:
